@@ -103,7 +103,7 @@ func (s *intraProxyStreamSender) Run(
 
 	// register this sender so sendMessages can use it
 	s.shardManager.GetIntraProxyManager().RegisterSender(s.peerNodeName, s.targetShardID, s.sourceShardID, s)
-	defer s.shardManager.GetIntraProxyManager().UnregisterSender(s.peerNodeName, s.targetShardID, s.sourceShardID)
+	defer s.shardManager.GetIntraProxyManager().UnregisterSender(s.peerNodeName, s.targetShardID, s.sourceShardID, s)
 
 	// Send pending watermarks to late-registering shards
 	// When a sender is registered, check if there's an active receiver for the source shard
@@ -484,13 +484,18 @@ func (m *intraProxyManager) UnregisterSender(
 	peerNodeName string,
 	targetShard history.ClusterShardID,
 	sourceShard history.ClusterShardID,
+	sender *intraProxyStreamSender,
 ) {
 	key := peerStreamKey{targetShard: targetShard, sourceShard: sourceShard}
 	m.loggers.Get(logging.ShardRouting).Info("UnregisterSender", tag.NewStringTag("peerNodeName", peerNodeName),
 		tag.NewStringTag("key", fmt.Sprintf("%v", key)))
 	m.streamsMu.Lock()
 	if ps := m.peers[peerNodeName]; ps != nil && ps.senders != nil {
-		delete(ps.senders, key)
+		// The peer may have re-established the stream for this shard pair before this (older) stream
+		// finished unwinding: only remove the entry if it is still ours.
+		if cur, ok := ps.senders[key]; ok && cur == sender {
+			delete(ps.senders, key)
+		}
 	}
 	m.streamsMu.Unlock()
 }
